@@ -119,6 +119,11 @@ def check(ctx):
               "cryptominisat_solve result mapping changed: %s" % F.returns())
 
     C07.crossing_facts(ctx, R="C02.crossing")
+    # 'exactly the valid sequences' needs the formula to have exactly the valid sequences as models: C01's clauses (which
+    # bring C10 / C14 / C15 / C16 / C18 / C26 with them), under their own rule names
+    if not ctx.is_control:
+        from ..report import include
+        include(ctx, "C01")
 
     mod = sys.modules[__name__]
     control(ctx, mod, "drop the blocking call",
